@@ -138,6 +138,8 @@ def smt_text(p, o):
 def run_functions(quals, timeout_ms=10000, jobs=None, split=None, want_smt=True):
     """-> list of per-task dicts. `split`: qual -> number of chunks (by path index)."""
     jobs = jobs or min(16, os.cpu_count() or 4)
+    if not quals:
+        return []
     tasks = []
     for q in quals:
         n = (split or {}).get(q, 1)
